@@ -11,7 +11,15 @@ use crate::runner::{Outcome, Prop, Tier};
 #[derive(Debug, Clone, Serialize, Deserialize)]
 pub enum Case {
     /// one game: name and two wrong ids to propose
-    Single { name: String, wrong_a: String, wrong_b: String, features: Vec<String> },
+    Single {
+        name: String,
+        wrong_a: String,
+        wrong_b: String,
+        features: Vec<String>,
+        /// candidate ids derived from the expected ones: (operation, position, character)
+        #[serde(default)]
+        mutations: Vec<(u8, u16, char)>,
+    },
     /// several games (totality only)
     List { games: Vec<(String, String)> },
     /// the shipped definitions table
@@ -108,6 +116,64 @@ fn name() -> impl Strategy<Value = (String, Vec<String>)> {
         })
 }
 
+/// A candidate id derived from an expected one.
+fn mutate(e: &str, other: &str, op: u8, pos: u16, ch: char) -> String {
+    let cs: Vec<char> = e.chars().collect();
+    let at = |n: usize| (pos as usize * (n + 1)) >> 16;
+    match op % 12 {
+        0 => e.to_uppercase(),
+        1 => {
+            // one letter in upper case
+            let i = at(cs.len().saturating_sub(1));
+            cs.iter().enumerate().map(|(k, c)| if k == i { c.to_ascii_uppercase() } else { *c }).collect()
+        }
+        2 => {
+            let mut v = cs.clone();
+            if !v.is_empty() {
+                v.remove(at(v.len() - 1));
+            }
+            v.into_iter().collect()
+        }
+        3 => {
+            let mut v = cs.clone();
+            v.insert(at(v.len()), ch);
+            v.into_iter().collect()
+        }
+        4 => {
+            let mut v = cs.clone();
+            if v.len() >= 2 {
+                let i = at(v.len() - 2);
+                v.swap(i, i + 1);
+            }
+            v.into_iter().collect()
+        }
+        5 => {
+            let mut v = cs.clone();
+            if !v.is_empty() {
+                let i = at(v.len() - 1);
+                v[i] = ch;
+            }
+            v.into_iter().collect()
+        }
+        6 => format!("{e}{other}"),
+        7 => format!("{other}{e}"),
+        8 => String::new(),
+        9 => {
+            // upper-case variant of the other expected id
+            let i = at(other.chars().count().saturating_sub(1));
+            other.chars().enumerate().map(|(k, c)| if k <= i { c.to_ascii_uppercase() } else { c }).collect()
+        }
+        10 => cs.iter().take(at(cs.len())).collect(),
+        _ => {
+            let mut c = cs.clone();
+            if let Some(f) = c.first_mut() {
+                *f = f.to_ascii_uppercase();
+            }
+            c.into_iter().collect()
+        }
+    }
+}
+
 fn wrong_id() -> impl Strategy<Value = String> { prop_oneof!["[a-z]{1,3}zq[0-9]{0,2}", "qx[a-z0-9]{1,10}"] }
 
 pub struct C20;
@@ -121,7 +187,7 @@ impl Prop for C20 {
         "names generated from the grammar CONTRIBUTING.md describes (1-6 words: capitalised words, small words, ALL-CAPS, dotted acronyms, roman numerals I-MMCMXCIX, numbers and \
          years in first / inner / last position, letter-digit mixes, hyphenated words, number-hyphen-number incl. apostrophes, number-hyphen-text, punctuation : ' & . ! ,; optional \
          '(year)' or '(edition)' suffix; optional ' - Mod' part). Single game, fresh checker: two different wrong lower-case ids are proposed; the sets of expected ids the checker \
-         reports must be equal, non-empty, every reported id must be accepted when proposed, and both wrong ids must be rejected. Lists of 1-4 games (ids taken from the reported \
+         reports must be equal, non-empty, every reported id must be accepted when proposed, and both wrong ids must be rejected; further candidate ids are derived from the reported ones (upper-case variants of one letter / a prefix / the whole id, deletion, insertion, replacement, transposition, prefix, concatenations, the empty id) and must be accepted exactly when they are members of the reported set, with the same reported set. Lists of 1-4 games (ids taken from the reported \
          ones, their duplicates and wrong ones) are checked for totality. The shipped table must pass. Any panic is a violation. non-trivial = the name uses at least two grammar \
          features; distinct = digest of the case"
             .into()
@@ -134,9 +200,10 @@ impl Prop for C20 {
     fn random_cases(&self, tier: Tier) -> u64 { tier.pick(300_000, 20_000_000) }
 
     fn strategy(&self, _tier: Tier) -> BoxedStrategy<Case> {
-        let single = (name(), wrong_id(), wrong_id()).prop_map(|((name, features), a, b)| {
+        let mutation = (0u8 .. 12, any::<u16>(), prop_oneof![4 => proptest::char::range('a', 'z'), 2 => proptest::char::range('0', '9'), 1 => proptest::char::range('A', 'Z'), 1 => Just('-'), 1 => Just('_'), 1 => Just(' ')]);
+        let single = (name(), wrong_id(), wrong_id(), prop::collection::vec(mutation, 0 .. 8)).prop_map(|((name, features), a, b, mutations)| {
             let b = if a == b { format!("{b}q") } else { b };
-            Case::Single { name, wrong_a: a, wrong_b: b, features }
+            Case::Single { name, wrong_a: a, wrong_b: b, features, mutations }
         });
         let list = prop::collection::vec((name(), prop_oneof![Just(0u8), Just(1), Just(2)], wrong_id()), 1..5).prop_map(|v| {
             let mut games: Vec<(String, String)> = Vec::new();
@@ -169,7 +236,8 @@ impl Prop for C20 {
             "Darkest Hour: Europe '44-'45 (2008)", "Grand Theft Auto V - FiveM (2013)", "Just Cause 2 - Multiplayer", "Minecraft (legacy 1.6)", "3-D Ultra Minigolf", "Half-Life 2-Player",
             "1942", "2", "A", "X", "IV", "Star Wars: Battlefront II (2005)", "44-45", "Left 4 Dead 2 - Mod 2",
         ] {
-            v.push(Case::Single { name: n.to_string(), wrong_a: "qxa".into(), wrong_b: "qxb7".into(), features: vec!["fixed".into(), "example".into()] });
+            let mutations: Vec<(u8, u16, char)> = (0u8 .. 12).flat_map(|op| [(op, 0u16, 'q'), (op, 40_000, '7'), (op, u16::MAX, 'Q')]).collect();
+            v.push(Case::Single { name: n.to_string(), wrong_a: "qxa".into(), wrong_b: "qxb7".into(), features: vec!["fixed".into(), "example".into()], mutations });
         }
         Box::new(v.into_iter())
     }
@@ -199,7 +267,7 @@ impl Prop for C20 {
                     o.fail(format!("C20|panic|{}|{}", p.site(), p.class()), json!({"games": games, "panic": p}));
                 }
             }
-            Case::Single { name, wrong_a, wrong_b, features } => {
+            Case::Single { name, wrong_a, wrong_b, features, mutations } => {
                 for f in features {
                     o.label(format!("feature={f}"));
                 }
@@ -226,6 +294,28 @@ impl Prop for C20 {
                                 "an id reported as expected is rejected".to_string(),
                                 json!({"proposed": e, "then_expected": f.iter().map(|x| x.expected_id.clone()).collect::<Vec<_>>(), "rules": format!("{:?}", f.last().map(|x| x.rule_stack.clone()))}),
                             ));
+                        }
+                    }
+                    // acceptance is exactly membership in the reported set, for candidates derived from the expected ids
+                    for (k, (op, pos, ch)) in mutations.iter().enumerate() {
+                        let e = &ea[(k + *pos as usize) % ea.len()];
+                        let other = &ea[(k + *pos as usize + 1) % ea.len()];
+                        let cand = mutate(e, other, *op, *pos, *ch);
+                        let f = test_single_game_rule(&cand, name);
+                        let member = ea.contains(&cand);
+                        if f.is_empty() != member {
+                            let kind = if cand.to_lowercase() != cand { "with upper-case letters" } else if cand.is_empty() { "empty" } else { "lower-case" };
+                            return Err((
+                                if member { "an id reported as expected is rejected".to_string() } else { format!("an id that is never reported as expected is accepted|{kind}") },
+                                json!({"candidate": cand, "reported_expected": ea, "derived_from": e}),
+                            ));
+                        }
+                        let mut ec: Vec<String> = f.iter().map(|x| x.expected_id.clone()).collect();
+                        ec.sort();
+                        ec.dedup();
+                        // (the lower-case rule reports the lower-cased proposal itself: only lower-case proposals are compared)
+                        if !member && cand.to_lowercase() == cand && ec != ea {
+                            return Err(("expected ids depend on the proposed id".to_string(), json!({"after_a": ea, "candidate": cand, "after_candidate": ec})));
                         }
                     }
                     Ok(())
